@@ -781,7 +781,7 @@ func (in *Interp) eval(fr *frame, v ssa.Value) Value {
 				return Tuple{in.tb.Bool(false), in.zero(mt.Key()), in.zero(mt.Elem())}
 			}
 			// Go leaves the iteration order unspecified: every order is explored
-			k := in.ex.choice("mapOrder", len(it.left))
+			k := in.ex.choice1(len(it.left)) // not a harness input: the native run iterates in whatever order Go picks
 			idx := it.left[k]
 			it.left = append(append([]int{}, it.left[:k]...), it.left[k+1:]...)
 			return Tuple{in.tb.Bool(true), it.m.keys[idx], it.m.vals[idx]}
